@@ -96,6 +96,11 @@ pub struct Position {
     pub side: Option<(usize, usize)>,
     pub spent_elsewhere: Option<Slip>,
     pub expired_present: Option<Slip>,
+    /// blocks delivered to the node under test after the path to `tip` (a fork whose adoption
+    /// fails part-way): the tip stays where it was
+    pub prelude: Vec<Vec<u8>>,
+    /// an output coordinate that only a rejected block of the prelude named as its input
+    pub phantom: Option<Slip>,
 }
 
 fn world(g: u64) -> World {
@@ -126,7 +131,7 @@ pub fn positions(tier: &Tier) -> Result<Vec<Position>, String> {
         let mut w = world(10);
         let a = w.honest_child(0, 0, "F2")?;
         let b = w.honest_child(a, 0, "F3")?;
-        out.push(Position { name: "fresh".into(), w, tip: b, side: None, spent_elsewhere: None, expired_present: None });
+        out.push(Position { name: "fresh".into(), w, tip: b, side: None, spent_elsewhere: None, expired_present: None, prelude: vec![], phantom: None });
     }
     // after a reorganisation: X1 loses against Y1,Y2; an output spent only on X is spendable again
     {
@@ -141,7 +146,7 @@ pub fn positions(tier: &Tier) -> Result<Vec<Position>, String> {
         let y1 = w.honest_child(s, 2, "Y1")?;
         let y2 = w.honest_child(y1, 2, "Y2")?;
         let _ = x1;
-        out.push(Position { name: "after-reorg".into(), w, tip: y2, side: Some((x1, y1)), spent_elsewhere: Some(sl), expired_present: None });
+        out.push(Position { name: "after-reorg".into(), w, tip: y2, side: Some((x1, y1)), spent_elsewhere: Some(sl), expired_present: None, prelude: vec![], phantom: None });
     }
     // window wrapped (g=3), zero fees: expired outputs were rebroadcast
     {
@@ -150,7 +155,7 @@ pub fn positions(tier: &Tier) -> Result<Vec<Position>, String> {
         for i in 0..8 {
             t = w.honest_child(t, 0, &format!("W{}", i + 2))?;
         }
-        out.push(Position { name: "wrapped-g3".into(), w, tip: t, side: None, spent_elsewhere: None, expired_present: None });
+        out.push(Position { name: "wrapped-g3".into(), w, tip: t, side: None, spent_elsewhere: None, expired_present: None, prelude: vec![], phantom: None });
     }
     // window wrapped with a fee level >= 1 nolan/byte: a dust output is not rebroadcast but
     // stays in the map until the 2g purge
@@ -182,7 +187,24 @@ pub fn positions(tier: &Tier) -> Result<Vec<Position>, String> {
         }
         let dust = dust.ok_or("no dust")?;
         let present = w.ledgers[t].utxo.contains(&dust.get_utxoset_key());
-        out.push(Position { name: "wrapped-g3-fees".into(), w, tip: t, side: None, spent_elsewhere: None, expired_present: if present { Some(dust) } else { None } });
+        out.push(Position { name: "wrapped-g3-fees".into(), w, tip: t, side: None, spent_elsewhere: None, expired_present: if present { Some(dust) } else { None }, prelude: vec![], phantom: None });
+    }
+    // after a reorganisation attempt that failed part-way: R3 is the tip, X3 (sibling of R3) is
+    // valid, X4 on top of it spends an output that never existed; the attempt winds X3, fails at
+    // X4 and restores R3
+    {
+        let mut w = world(10);
+        let a = w.honest_child(0, 0, "R2")?;
+        let b = w.honest_child(a, 0, "R3")?;
+        let x3 = w.honest_child(a, 3, "X3")?;
+        let att = key(ATTACKER);
+        let mut ph = w.ledgers[x3].unspent_of(&att.public).into_iter().next().ok_or("attacker has no output")?;
+        ph.tx_ordinal += 40;
+        let ts = w.child_ts(x3, 5);
+        let tx = make_tx(&[ph.clone()], &[(att.public, ph.amount)], &att, ts, b"phantom");
+        let x4 = attacker_block(&w, x3, &Candidate { edit: String::new(), tx, tx2: None, control: false }, false)?;
+        let x3_bytes = w.blocks[x3].bytes.clone();
+        out.push(Position { name: "after-failed-reorg".into(), w, tip: b, side: None, spent_elsewhere: None, expired_present: None, prelude: vec![x3_bytes, x4], phantom: Some(ph) });
     }
     let _ = tier;
     Ok(out)
@@ -280,6 +302,10 @@ pub fn candidates(p: &Position) -> Vec<Candidate> {
             v.push(Candidate { edit: "replayed-transaction".into(), tx: stx.clone(), tx2: None, control: false });
         }
     }
+    // named as an input only by a block the node rejected
+    if let Some(ph) = &p.phantom {
+        v.push(Candidate { edit: "input-named-only-by-a-rejected-block".into(), tx: pay(ph), tx2: None, control: false });
+    }
     // expired but still present
     if let Some(e) = &p.expired_present {
         v.push(Candidate { edit: "expired-input".into(), tx: pay(e), tx2: None, control: false });
@@ -289,6 +315,17 @@ pub fn candidates(p: &Position) -> Vec<Candidate> {
     // same input in two transactions of one block
     // (both fee-less, so that the block's totals stay right and only the double spend can be the reason)
     v.push(Candidate { edit: "same-input-in-two-txs".into(), tx: pay(&o), tx2: Some(make_tx(&[o.clone()], &[(att.public, o.amount - 1), (key(2).public, 1)], &att, ts + 1, b"y")), control: false });
+    // ... and for one own output of every other slip kind the attacker holds here (payout,
+    // rebroadcast outputs): the in-block double-spend rule must not depend on the kind
+    {
+        let mut kinds: BTreeSet<String> = BTreeSet::new();
+        kinds.insert(format!("{:?}", o.slip_type));
+        for s in own.iter() {
+            if s.slip_type != SlipType::Bound && kinds.insert(format!("{:?}", s.slip_type)) {
+                v.push(Candidate { edit: format!("same-input-in-two-txs:{:?}", s.slip_type), tx: pay(s), tx2: Some(make_tx(&[s.clone()], &[(att.public, s.amount - 1), (key(2).public, 1)], &att, ts + 1, b"y")), control: false });
+            }
+        }
+    }
     // retagged Bound
     let mut bo = o.clone();
     bo.slip_type = SlipType::Bound;
@@ -414,7 +451,7 @@ fn gate_verify(n: &LedgerNode, tx: &Transaction) -> Verdict {
 }
 
 /// block gates: the attacker produces a block carrying the candidate on `parent`
-fn attacker_block(w: &World, parent: usize, c: &Candidate, first: bool) -> Result<Vec<u8>, String> {
+pub fn attacker_block(w: &World, parent: usize, c: &Candidate, first: bool) -> Result<Vec<u8>, String> {
     let att = key(ATTACKER);
     let node = w.node_at(parent, att)?;
     let ts = w.child_ts(parent, 500);
@@ -469,6 +506,20 @@ fn attacker_block(w: &World, parent: usize, c: &Candidate, first: bool) -> Resul
     Ok(block_bytes(&b))
 }
 
+/// the node under test for the pool / verification gates: genesis..tip, then the position's prelude
+fn node_with_prelude(p: &Position, tip: usize) -> Result<LedgerNode, String> {
+    let mut n = p.w.node_at(tip, key(9))?;
+    if tip == p.tip {
+        for b in p.prelude.iter() {
+            let _ = n.add_block_bytes(b);
+        }
+        if n.tip().1 != p.w.blocks[tip].hash {
+            return Err("prelude moved the tip".into());
+        }
+    }
+    Ok(n)
+}
+
 fn gate_block(w: &World, p: &Position, tip: usize, c: &Candidate, first: bool, side: bool) -> (Verdict, String) {
     let (parent, pre): (usize, Vec<usize>) = if side {
         let (old_tip, side_parent) = p.side.unwrap();
@@ -491,6 +542,11 @@ fn gate_block(w: &World, p: &Position, tip: usize, c: &Candidate, first: bool, s
     } else {
         for i in w.path(parent) {
             let _ = n.add_block_bytes(&w.blocks[i].bytes);
+        }
+        if tip == p.tip {
+            for b in p.prelude.iter() {
+                let _ = n.add_block_bytes(b);
+            }
         }
     }
     let before = n.tip();
@@ -524,6 +580,24 @@ pub fn main(tier: Tier, _replay: Option<String>) -> i32 {
         "the window edge is exact: at block h an input created at h-g is inside the window, one created at h-g-1 (the block being rebroadcast by h) is not".into(),
         "reference ledger: set of output coordinates replayed from the harness's own block bytes".into(),
     ];
+    // a prelude must really be a part-way failure: blocks wound, then unwound, tip unchanged
+    for p in ps.iter().filter(|p| !p.prelude.is_empty()) {
+        match p.w.node_at(p.tip, key(9)) {
+            Ok(mut n) => {
+                let mut last = Outcome::Stalled;
+                for b in p.prelude.iter() {
+                    last = n.add_block_bytes(b);
+                }
+                let steps = crate::exec::steps_used();
+                if !matches!(last, Outcome::Done(AddRes::Invalid)) || steps < 3 || n.tip().1 != p.w.blocks[p.tip].hash {
+                    rep.machinery(format!("position {}: the prelude is not a reorganisation that fails part-way (last result {:?}, {} wind/unwind steps)", p.name, last, steps));
+                } else {
+                    rep.extra.insert(format!("prelude:{}", p.name), json!({"wind_unwind_steps_of_the_failed_attempt": steps}));
+                }
+            }
+            Err(e) => rep.machinery(format!("position {}: {}", p.name, e)),
+        }
+    }
     let mut jobs: Vec<(usize, usize, Candidate)> = vec![];
     // the window edge, swept: at every height of the two wrapped chains, every unspent output of
     // every key and every age up to g+3 is spent by its owner; the reference decides which are
@@ -596,13 +670,13 @@ pub fn main(tier: Tier, _replay: Option<String>) -> i32 {
         let mut verdicts: Vec<(String, Verdict, String)> = vec![];
         let is_gt = c.tx.transaction_type == TransactionType::GoldenTicket;
         if c.tx2.is_none() {
-            if let Ok(n) = w.node_at(tip, key(9)) {
+            if let Ok(n) = node_with_prelude(p, tip) {
                 if !is_gt {
                     verdicts.push(("pool".into(), gate_pool(&n, &c.tx), String::new()));
                 }
                 verdicts.push(("verify_tx".into(), gate_verify(&n, &c.tx), String::new()));
             }
-        } else if let Ok(n) = w.node_at(tip, key(9)) {
+        } else if let Ok(n) = node_with_prelude(p, tip) {
             // pool gate for the pair: both admitted?
             let a = gate_pool(&n, &c.tx);
             let b = gate_pool(&n, c.tx2.as_ref().unwrap());
